@@ -32,6 +32,7 @@ type Obligation struct {
 	Script  string
 	Reason  string
 	ScriptBytes int
+	FailedGoal *Term
 }
 
 type Exec struct {
@@ -42,8 +43,8 @@ type Exec struct {
 	obls     []*Obligation
 	notes    map[string]bool
 	discover bool
-	wstack   []map[string]bool
-	loopMods map[*ssa.BasicBlock]map[string]bool
+	wlogs    []*writeLog
+	written  map[string]bool
 
 	pendingAssume []*Term
 	immutable     map[string][]*Term
@@ -73,14 +74,16 @@ type Candidate struct {
 }
 
 type edgeInfo struct {
-	pc *Term
-	st *State
+	pc    *Term
+	st    *State
+	guard *Term // branch conditions only (no assumptions): used to discriminate merges
 }
 
 type retEdge struct {
-	pc   *Term
-	st   *State
-	vals []Val
+	pc    *Term
+	st    *State
+	vals  []Val
+	guard *Term
 }
 
 type Frame struct {
@@ -92,13 +95,15 @@ type Frame struct {
 	depth  int
 	rets   []retEdge
 	edges  map[[2]int]edgeInfo
-	bw     map[int]map[string]bool
+	deferFns []Val
 	root   bool
 	defers []*ssa.Defer
 	names  map[string][]nameDef
 	curBlk *ssa.BasicBlock
 	callPos token.Pos
 	parent *Frame
+	guard  *Term // guard of the block being executed
+	guard0 *Term // guard at function entry
 }
 
 type nameDef struct {
@@ -259,7 +264,7 @@ func (ex *Exec) val(fr *Frame, v ssa.Value) Val {
 	case *ssa.Const:
 		return ex.constVal(x)
 	case *ssa.Global:
-		return ex.globalPtr(x)
+		return ex.globalVal(x)
 	case *ssa.Function:
 		return &FuncV{Fn: x}
 	case *ssa.Builtin:
@@ -280,6 +285,19 @@ func (ex *Exec) globalPtr(g *ssa.Global) *Term {
 	return App(name, SRef)
 }
 
+// globalVal: the pointer value of a global as seen by instructions. Aggregate globals are
+// objects of their own (so that field addresses and method receivers work).
+func (ex *Exec) globalVal(g *ssa.Global) *Term {
+	p := ex.globalPtr(g)
+	et := g.Type().(*types.Pointer).Elem()
+	if aggregate(et) {
+		o := Var(p.name+"$obj", SRef)
+		o.AddFact(And(Neq(o, Null), IntOp("<", birth(o), IntLit(0)), Eq(App("kind", SInt, o), IntLit(0))))
+		return o
+	}
+	return p
+}
+
 func (ex *Exec) term(fr *Frame, v ssa.Value) *Term {
 	t, ok := ex.val(fr, v).(*Term)
 	if !ok {
@@ -293,9 +311,13 @@ func (ex *Exec) term(fr *Frame, v ssa.Value) *Term {
 type bigInt = bigIntT
 
 func (ex *Exec) newFrame(fn *ssa.Function, args []Val, bind []Val, st *State, parent *Frame) *Frame {
-	fr := &Frame{fn: fn, vals: map[ssa.Value]Val{}, args: args, edges: map[[2]int]edgeInfo{}, bw: map[int]map[string]bool{}, parent: parent}
+	fr := &Frame{fn: fn, vals: map[ssa.Value]Val{}, args: args, edges: map[[2]int]edgeInfo{}, parent: parent}
+	fr.guard0 = True
 	if parent != nil {
 		fr.depth = parent.depth + 1
+		if parent.guard != nil {
+			fr.guard0 = parent.guard
+		}
 	}
 	for i, p := range fn.Params {
 		fr.vals[p] = args[i]
@@ -402,8 +424,41 @@ func (ex *Exec) run(fr *Frame, st *State, pc *Term) (rets []Val, out *State, out
 	if fn.Recover != nil {
 		ex.unsupported("recover block ignored")
 	}
-	order := rpo(fn)
+	ex.execBlocks(fr, nil, fn.Blocks[0], edgeInfo{pc, st, fr.guard0}, nil)
+	// merge returns
+	if len(fr.rets) == 0 {
+		return nil, st, False
+	}
+	last := fr.rets[len(fr.rets)-1]
+	out, outpc = last.st, last.pc
+	rets = last.vals
+	res := fn.Signature.Results()
+	for k := len(fr.rets) - 2; k >= 0; k-- {
+		r := fr.rets[k]
+		m := newState()
+		m.extyp = out.extyp
+		ex.mergeInto(m, r.guard, r.st, out)
+		out = m
+		nv := make([]Val, len(rets))
+		for i := range rets {
+			nv[i] = iteVal(r.guard, res.At(i).Type(), r.vals[i], rets[i])
+		}
+		rets = nv
+		outpc = Or(r.pc, outpc)
+	}
+	return rets, out, outpc
+}
+
+// execBlocks executes the blocks of fr.fn in reverse post-order. With region == nil the whole
+// function is executed from its entry block. With a region (a loop body) execution starts at
+// start (the loop header) with the given incoming edge and phi values: this is the probe that
+// finds out what one iteration of the loop writes.
+func (ex *Exec) execBlocks(fr *Frame, region map[*ssa.BasicBlock]bool, start *ssa.BasicBlock, startEdge edgeInfo, startPhis map[*ssa.Phi]Val) {
+	order := rpo(fr.fn)
 	for _, b := range order {
+		if region != nil && !region[b] {
+			continue
+		}
 		// gather incoming forward edges
 		type inc struct {
 			pred *ssa.BasicBlock
@@ -411,23 +466,27 @@ func (ex *Exec) run(fr *Frame, st *State, pc *Term) (rets []Val, out *State, out
 			pidx int // index into b.Preds
 		}
 		var ins []inc
-		if b.Index == 0 {
-			ins = append(ins, inc{nil, edgeInfo{pc, st}, -1})
-		}
-		for pi, p := range b.Preds {
-			if isBackEdge(p, b) {
-				continue
-			}
-			// which successor slot of p is this pred entry? handle duplicate edges
-			nth := 0
-			for k := 0; k < pi; k++ {
-				if b.Preds[k] == p {
-					nth++
+		if b == start {
+			ins = append(ins, inc{nil, startEdge, -1})
+		} else {
+			for pi, p := range b.Preds {
+				if isBackEdge(p, b) {
+					continue
 				}
-			}
-			si := succIndex(p, b, nth)
-			if e, ok := fr.edges[[2]int{p.Index, si}]; ok && e.pc != False {
-				ins = append(ins, inc{p, e, pi})
+				if region != nil && !region[p] {
+					continue
+				}
+				// which successor slot of p is this pred entry? handle duplicate edges
+				nth := 0
+				for k := 0; k < pi; k++ {
+					if b.Preds[k] == p {
+						nth++
+					}
+				}
+				si := succIndex(p, b, nth)
+				if e, ok := fr.edges[[2]int{p.Index, si}]; ok && e.pc != False {
+					ins = append(ins, inc{p, e, pi})
+				}
 			}
 		}
 		if len(ins) == 0 {
@@ -439,21 +498,21 @@ func (ex *Exec) run(fr *Frame, st *State, pc *Term) (rets []Val, out *State, out
 		if len(ins) == 1 {
 			cur = ins[0].e.st.clone()
 			bpc = ins[0].e.pc
+			fr.guard = ins[0].e.guard
 		} else {
 			cur = ins[len(ins)-1].e.st.clone()
 			bpc = ins[len(ins)-1].e.pc
+			fr.guard = ins[len(ins)-1].e.guard
 			for k := len(ins) - 2; k >= 0; k-- {
 				m := newState()
 				m.extyp = cur.extyp
-				ex.mergeInto(m, ins[k].e.pc, ins[k].e.st, cur)
+				ex.mergeInto(m, ins[k].e.guard, ins[k].e.st, cur)
 				cur = m
 				bpc = Or(ins[k].e.pc, bpc)
+				fr.guard = Or(ins[k].e.guard, fr.guard)
 			}
 		}
 		fr.curBlk = b
-		w := map[string]bool{}
-		fr.bw[b.Index] = w
-		ex.wstack = append(ex.wstack, w)
 		// phis
 		phiVal := func(phi *ssa.Phi) Val {
 			var v Val
@@ -462,15 +521,19 @@ func (ex *Exec) run(fr *Frame, st *State, pc *Term) (rets []Val, out *State, out
 				if v == nil {
 					v = x
 				} else {
-					v = iteVal(ins[k].e.pc, phi.Type(), x, v)
+					v = iteVal(ins[k].e.guard, phi.Type(), x, v)
 				}
 			}
 			return v
 		}
-		header := isLoopHeader(b)
-		if header {
+		switch {
+		case b == start && region != nil:
+			for phi, v := range startPhis {
+				fr.vals[phi] = v
+			}
+		case isLoopHeader(b):
 			bpc = ex.loopHead(fr, b, cur, bpc, phiVal)
-		} else {
+		default:
 			for _, in := range b.Instrs {
 				phi, ok := in.(*ssa.Phi)
 				if !ok {
@@ -493,7 +556,6 @@ func (ex *Exec) run(fr *Frame, st *State, pc *Term) (rets []Val, out *State, out
 				ex.pendingAssume = nil
 			}
 		}
-		ex.wstack = ex.wstack[:len(ex.wstack)-1]
 		// back edges out of b: invariant preservation
 		for si, s := range b.Succs {
 			if isBackEdge(b, s) {
@@ -503,35 +565,48 @@ func (ex *Exec) run(fr *Frame, st *State, pc *Term) (rets []Val, out *State, out
 			}
 		}
 	}
-	if ex.discover {
-		ex.collectLoopMods(fr)
-	}
-	// merge returns
-	if len(fr.rets) == 0 {
-		return nil, st, False
-	}
-	last := fr.rets[len(fr.rets)-1]
-	out, outpc = last.st, last.pc
-	rets = last.vals
-	res := fn.Signature.Results()
-	for k := len(fr.rets) - 2; k >= 0; k-- {
-		r := fr.rets[k]
-		m := newState()
-		m.extyp = out.extyp
-		ex.mergeInto(m, r.pc, r.st, out)
-		out = m
-		nv := make([]Val, len(rets))
-		for i := range rets {
-			nv[i] = iteVal(r.pc, res.At(i).Type(), r.vals[i], rets[i])
-		}
-		rets = nv
-		outpc = Or(r.pc, outpc)
-	}
-	return rets, out, outpc
 }
 
-func (ex *Exec) setEdge(fr *Frame, b *ssa.BasicBlock, si int, pc *Term, st *State) {
-	fr.edges[[2]int{b.Index, si}] = edgeInfo{pc, st}
+// writeLog: what a probed loop iteration writes.
+type writeLog struct {
+	whole map[string]bool
+	refs  map[string]map[int]*Term
+	extra map[string]bool
+}
+
+func newWriteLog() *writeLog {
+	return &writeLog{whole: map[string]bool{}, refs: map[string]map[int]*Term{}, extra: map[string]bool{}}
+}
+
+// probeLoop executes one iteration of the loop at h from the current state (obligations off) and
+// returns what it writes.
+func (ex *Exec) probeLoop(fr *Frame, h *ssa.BasicBlock, cur *State, pc *Term, entryVals map[*ssa.Phi]Val) *writeLog {
+	pf := *fr
+	pf.vals = make(map[ssa.Value]Val, len(fr.vals))
+	for k, v := range fr.vals {
+		pf.vals[k] = v
+	}
+	pf.edges = make(map[[2]int]edgeInfo, len(fr.edges))
+	for k, v := range fr.edges {
+		pf.edges[k] = v
+	}
+	pf.rets = append([]retEdge{}, fr.rets...)
+	pf.defers = append([]*ssa.Defer{}, fr.defers...)
+	pf.deferFns = append([]Val{}, fr.deferFns...)
+	wl := newWriteLog()
+	savedDisc, savedFrame, savedPend := ex.discover, ex.curFrame, ex.pendingAssume
+	ex.discover = true
+	ex.curFrame = &pf
+	ex.pendingAssume = nil
+	ex.wlogs = append(ex.wlogs, wl)
+	ex.execBlocks(&pf, loopBody(h), h, edgeInfo{pc, cur.clone(), fr.guard}, entryVals)
+	ex.wlogs = ex.wlogs[:len(ex.wlogs)-1]
+	ex.discover, ex.curFrame, ex.pendingAssume = savedDisc, savedFrame, savedPend
+	return wl
+}
+
+func (ex *Exec) setEdge(fr *Frame, b *ssa.BasicBlock, si int, pc *Term, st *State, guard *Term) {
+	fr.edges[[2]int{b.Index, si}] = edgeInfo{pc, st, guard}
 }
 
 // ------------------------------------------------------------------ names for invariants
@@ -633,6 +708,7 @@ func (ex *Exec) loopHead(fr *Frame, h *ssa.BasicBlock, cur *State, pc *Term, phi
 		entryVals[phi] = phiVal(phi)
 	}
 	if ex.discover {
+		// nested loop inside a probe: run its body once as well, without cutting
 		for _, phi := range phis {
 			fr.vals[phi] = entryVals[phi]
 		}
@@ -650,21 +726,69 @@ func (ex *Exec) loopHead(fr *Frame, h *ssa.BasicBlock, cur *State, pc *Term, phi
 		g := lc.eval(ex.localEnv(fr, h, entrySt))
 		ex.addLoopObl(fr, h, lc, "inv-entry", pc, g)
 	}
-	// havoc
-	mods := ex.loopMods[h]
-	for _, name := range sortedKeys(mods) {
-		if strings.HasPrefix(name, "@") {
+	// havoc what one iteration writes (found by probing the body from the current state)
+	limit := TS.n
+	wl := ex.probeLoop(fr, h, cur, pc, entryVals)
+	fr.guard = fr.guard // unchanged by the probe (it ran on a copy)
+	var names []string
+	seenN := map[string]bool{}
+	for n := range wl.whole {
+		if !seenN[n] {
+			seenN[n] = true
+			names = append(names, n)
+		}
+	}
+	for n := range wl.refs {
+		if !seenN[n] {
+			seenN[n] = true
+			names = append(names, n)
+		}
+	}
+	sort.Strings(names)
+	for _, name := range names {
+		whole := wl.whole[name]
+		for id, r := range wl.refs[name] {
+			if r.id > limit {
+				root := r
+				for root.op == "app" && len(root.args) > 0 && (strings.HasPrefix(root.name, "sub$") || strings.HasPrefix(root.name, "elemref$")) {
+					root = root.args[0]
+				}
+				if root.op == "var" && strings.HasPrefix(root.name, "obj$") && root.id > limit {
+					// an object allocated by this very iteration: it does not exist at the loop head
+					delete(wl.refs[name], id)
+					continue
+				}
+				whole = true // written through a reference computed inside the loop
+			}
+		}
+		srt, known := compSorts[name]
+		if !known {
 			continue
 		}
-		ex.havocCompAt(cur, name)
+		if whole || !strings.HasPrefix(srt, "(Array Ref") {
+			ex.havocComp(cur, name)
+			continue
+		}
+		var ids []int
+		for id := range wl.refs[name] {
+			ids = append(ids, id)
+		}
+		sort.Ints(ids)
+		_, inner := arrParts(srt)
+		c := ex.get(cur, name, srt)
+		for _, id := range ids {
+			c = Store(c, wl.refs[name][id], Fresh("lh$"+name, inner))
+		}
+		cur.comp[name] = c
+		ex.noteWriteAt(name, nil)
 	}
-	if mods["@now"] || true {
+	{
 		n := Fresh("now", SInt)
 		ex.pendingAssume = append(ex.pendingAssume, IntOp("<=", cur.now, n))
 		cur.now = n
 	}
 	for k := range cur.extra {
-		if mods["@extra:"+k] {
+		if wl.extra[k] {
 			cur.extra[k] = freshVal("x$"+k, cur.extyp[k])
 		}
 	}
